@@ -1,4 +1,4 @@
-// Positive controls for C01.R9 / R10 / R11: each parse function below MUST be reported by the corresponding rule on every run
+// Positive controls for C01.R9 / R10 / R11 / R13: each parse function below MUST be reported by the corresponding rule on every run
 // (compiled with the flags of a real unit; never linked, never executed).
 #include <QDomElement>
 #include <QString>
@@ -38,6 +38,22 @@ struct Codec {
             }
         }
         entries.push_back(e);
+    }
+
+    // R13: text is stored normalised (the writer emits the member as it is)
+    void parseNormalises(const QDomElement &element)
+    {
+        const auto value = element.firstChildElement(QStringLiteral("value")).text().trimmed();
+        setError(value);
+    }
+    void setError(const QString &e) { error = e; }
+
+    // R13 negative: normalising for a comparison / a bool is fine (must NOT be reported)
+    bool flag = false;
+    void parseTolerantFlag(const QDomElement &element)
+    {
+        const auto v = element.attribute(QStringLiteral("flag")).trimmed().toLower();
+        flag = v == QStringLiteral("1") || v == QStringLiteral("true");
     }
 
     // R11: a 64-bit member parsed with a 32-bit conversion
